@@ -100,6 +100,9 @@ Get(st, n) == st.env[n]
 Put(st, n, v) == [st EXCEPT !.env = [x \in DOMAIN st.env \cup {n} |-> IF x = n THEN v ELSE st.env[x]]]
 Tick(st) == [st EXCEPT !.fuel = st.fuel - 1]
 
+RECURSIVE UpdPath(_, _, _, _)
+UpdPath(v, path, k, nv) == IF k > Len(path) THEN nv ELSE [v EXCEPT ![path[k]] = UpdPath(v[path[k]], path, k + 1, nv)]
+
 \* ---------------------------------------------------------------- the interpreter
 \* P.fns : function name -> [params: <<names>>, body: expr]
 RECURSIVE Ev(_, _, _), EvSeq(_, _, _, _), EvBlock(_, _, _, _), EvLoop(_, _, _), EvWhile(_, _, _), EvFor(_, _, _, _, _),
@@ -127,6 +130,9 @@ EvBlock(P, b, i, st) ==
                 IN EvBlock(P, b, i + 1, B(1, r.st))
       [] s.k = "set" ->
            LET r == Ev(P, s.e, st) IN IF r.k # "val" THEN r ELSE EvBlock(P, b, i + 1, Put(r.st, s.n, r.v))
+      [] s.k = "setf" ->      \* n.path = e : assignment to a (nested) member of a struct variable
+           LET r == Ev(P, s.e, st) IN
+           IF r.k # "val" THEN r ELSE EvBlock(P, b, i + 1, Put(r.st, s.n, UpdPath(Get(r.st, s.n), s.path, 1, r.v)))
       [] s.k = "opset" ->     \* n op= e : the right-hand side is evaluated, then the operation on the current value
            LET r == Ev(P, s.e, st) IN
            IF r.k # "val" THEN r
@@ -170,6 +176,9 @@ Ev(P, e, st) ==
     [] e.k = "cmp" ->
          LET a == Ev(P, e.l, st) IN IF a.k # "val" THEN a ELSE
          LET b == Ev(P, e.r, a.st) IN IF b.k # "val" THEN b ELSE Val(Cmp(e.op, a.v, b.v), b.st)
+    [] e.k = "veq" ->       \* derived PartialEq of struct values (member-wise equality)
+         LET a == Ev(P, e.l, st) IN IF a.k # "val" THEN a ELSE
+         LET b == Ev(P, e.r, a.st) IN IF b.k # "val" THEN b ELSE Val(a.v = b.v, b.st)
     [] e.k = "bit" ->
          LET a == Ev(P, e.l, st) IN IF a.k # "val" THEN a ELSE
          LET b == Ev(P, e.r, a.st) IN IF b.k # "val" THEN b ELSE Val(BitOp(e.op, a.v, b.v), b.st)
